@@ -76,13 +76,7 @@ theorem closed_list_needs_consistency :
     (search Lemmas.AStarWitness.closedList 10 (init Lemmas.AStarWitness.closedList)).cost = some 6 ∧
     Reach Lemmas.AStarWitness.closedList 4 (some 3) 5 [4, 3, 1, 2, 0] := by
   refine ⟨by decide +kernel, ?_⟩
-  have h0 : Reach Lemmas.AStarWitness.closedList 0 none 0 [0] := Reach.start
-  have h1 := Reach.step (P := Lemmas.AStarWitness.closedList) ⟨2, 1, 0⟩ h0 (by decide +kernel)
-  have h2 := Reach.step (P := Lemmas.AStarWitness.closedList) ⟨1, 1, 3⟩ h1 (by decide +kernel)
-  have h3 := Reach.step (P := Lemmas.AStarWitness.closedList) ⟨3, 1, 0⟩ h2 (by decide +kernel)
-  have h4 := Reach.step (P := Lemmas.AStarWitness.closedList) ⟨4, 2, 0⟩ h3 (by decide +kernel)
-  have e : (0 + 1 + 1 + 1 + 2 : Rat) = 5 := by decide +kernel
-  rw [← e]; exact h4
+  exact walk_start_sound Lemmas.AStarWitness.closedList [2, 1, 3, 4] (some 3) 4 5 [4, 3, 1, 2, 0] (by decide +kernel)
 
 /-- **Soundness of the per-graph check** `Graph.consistent` (run by the driver on libavoid's dumped
     graphs): where it succeeds, the model search on that graph (exact comparator) returns a node that
@@ -94,6 +88,10 @@ theorem graph_search_optimal (g : Graph) (hc : g.consistent = true) (heps : g.ep
     ∀ u c path, Reach g.problem g.tar (some u) c path → g.tar ∉ path.tail →
       b.g + bonusOf g.bonus b.pv ≤ c + g.bonus u :=
   Lemmas.AStarGraph.graph_search_optimal g hc heps fuel b done h
+
+example : Lemmas.AStarWitness.lineGraph.consistent = true ∧ Lemmas.AStarWitness.lineGraph.eps = 0 ∧
+    (search Lemmas.AStarWitness.lineGraph.problem 5 (init Lemmas.AStarWitness.lineGraph.problem)).cost = some 1 := by
+  decide +kernel
 
 /-- **libavoid's estimator is not consistent with `cost()`, kind 1: the edge into a cost target.**
     Penalty 10, cost target (0,0) to be entered heading East (`costTarDirs = 2`).  At (0,1), heading
@@ -130,7 +128,11 @@ theorem pruning_loses_optimum_unrestricted_target :
     isGraphPath g p = true ∧ p.head? = some g.src ∧ p.getLast? = some g.tar ∧
     fullCost g none p = 121 / 2 ∧ usesPrunedTurn g none p = true ∧
     ({ g with prune := false }).run.chain = p := by
-  decide +kernel
+  intro g p
+  have h1 : g.run.chain = [1, 148, 168, 158, 11, 15, 159, 160, 167, 161, 165, 162, 163, 0] := by decide +kernel
+  refine ⟨h1, ?_, by decide +kernel, by decide +kernel, by decide +kernel, by decide +kernel, by decide +kernel,
+    by decide +kernel⟩
+  rw [h1]; decide +kernel
 
 /-- **… and with a direction-restricted target** (known finding C05-dirs-dst-search, harness case
     `c05 --seed 1 --tier quick --mode dirs2 --only 2401`) even in the search's own cost: with the rule the
@@ -143,6 +145,27 @@ theorem pruning_loses_optimum_restricted_target :
     ({ g with prune := false }).run.chain = [1, 26, 13, 32, 33, 0] ∧
     isGraphPath g [1, 26, 13, 32, 33, 0] = true ∧ usesPrunedTurn g none [1, 26, 13, 32, 33, 0] = true := by
   decide +kernel
+
+/-- **The real search does not minimise its own cost, on a real graph** (same scene as above, turn
+    pruning switched off so that only the estimator is at work): the search returns g = 59 through cost
+    target 143, while the state graph contains the path 1→148→168→…→163→0 (the route the pruned search
+    returns) of g = 50 through cost target 163; both last hops have the same uncharged length 3/2.  The estimator
+    over-estimates the search's own cost along that path by one penalty until it reaches its cost target (the
+    bend there is counted by `bends()` but never charged by `search`), so the dearer node is popped
+    first, and DONE is never re-opened.  (In full cost, last hop and last bend included, the returned
+    route is the better one: 60.5 against 61.5 — the g-value is not the quantity the property speaks of.) -/
+theorem search_not_optimal_for_own_cost_on_real_graph :
+    let g := { Lemmas.AStarWitness.lossyGraph with prune := false }
+    (g.run.cost, g.run.chain.reverse.take 2) = (some 59, [g.tar, 143]) ∧
+    g.bonus 143 = 3 / 2 ∧ g.bonus 163 = 3 / 2 ∧
+    ∃ path, Reach g.problem g.tar (some 163) 50 path ∧ g.tar ∉ path.tail := by
+  refine ⟨by decide +kernel, by decide +kernel, by decide +kernel, ?_⟩
+  have hw : walk ({ Lemmas.AStarWitness.lossyGraph with prune := false }).problem none
+      ({ Lemmas.AStarWitness.lossyGraph with prune := false }).problem.src 0
+      [({ Lemmas.AStarWitness.lossyGraph with prune := false }).problem.src]
+      [148, 168, 158, 11, 15, 159, 160, 167, 161, 165, 162, 163, 0] =
+      some (some 163, 0, 50, [0, 163, 162, 165, 161, 167, 160, 159, 15, 11, 158, 168, 148, 1]) := by decide +kernel
+  exact ⟨_, walk_start_sound _ _ _ _ _ _ hw, by decide⟩
 
 /-- **Where the estimator IS consistent with `cost()`**: on every hop curr → next with a single heading
     `nd` (axis-parallel, positive length), taken after arriving at `curr` with heading `cd`, that does not
